@@ -11,13 +11,15 @@ import (
 // goroutine.
 //
 // A "slot" is a channel kept in a field of a long-lived object that the accepting goroutine sends into (directly,
-// in a select with default, or through a helper) between Accept and the go statement: a connection limit. If any
+// in a select with default, or through a helper) between Accept and the go statement: a connection limit. A counter
+// field raised with sync/atomic.Add(+c) on the accept path and lowered with Add(-c) is the same thing (the clean tree
+// has one: the wait group's count of active connections). If any
 // path of the connection goroutine returns without receiving from that channel (directly, through a deferred
 // helper, or inside a callee that always does), slots leak: after capacity-many connections that took that path -
 // clients from addresses no scope admits, say - the server refuses every client until it is restarted. One client
 // then disturbs all others, whatever it sends.
 //
-// The clean tree has no such channel; the rule then records that the accept path takes no slot. The self-test
+// The clean tree has no such channel; the self-test
 // keeps a mutant (a connection cap released only by the connection loop) so that the rule is known to see one.
 func ruleSlot(p *Program, r *Result) {
 	ro := rolesOK(p, r)
@@ -35,11 +37,44 @@ func ruleSlot(p *Program, r *Result) {
 		}
 		return f
 	}
-	// sends / receives on channel fields, per function
+	// atomicDelta: in is sync/atomic.Add*(&x.field, c) with a constant c: the field and the sign of c
+	atomicDelta := func(in ssa.Instruction) (*types.Var, int) {
+		var cc *ssa.CallCommon
+		switch x := in.(type) {
+		case *ssa.Call:
+			cc = &x.Call
+		case *ssa.Defer:
+			cc = &x.Call
+		default:
+			return nil, 0
+		}
+		c := struct{ Call *ssa.CallCommon }{cc}
+		g := c.Call.StaticCallee()
+		if g == nil || g.Pkg == nil || g.Pkg.Pkg.Path() != "sync/atomic" || g.Signature.Recv() != nil || len(g.Name()) < 3 || g.Name()[:3] != "Add" || len(c.Call.Args) != 2 {
+			return nil, 0
+		}
+		fv, _, ok := fieldAddrOf(c.Call.Args[0])
+		if !ok {
+			return nil, 0
+		}
+		d, isConst := constInt(c.Call.Args[1])
+		if !isConst || d == 0 {
+			return nil, 0
+		}
+		if d > 0 {
+			return fv, 1
+		}
+		return fv, -1
+	}
+	// sends / receives on channel fields (and atomic +c / -c on counter fields), per function
 	ops := func(f *ssa.Function, send bool) map[*types.Var][]ssa.Instruction {
 		out := map[*types.Var][]ssa.Instruction{}
 		for _, b := range f.Blocks {
 			for _, in := range b.Instrs {
+				if fv, sign := atomicDelta(in); fv != nil && (sign > 0) == send {
+					out[fv] = append(out[fv], in)
+					continue
+				}
 				switch x := in.(type) {
 				case *ssa.Send:
 					if send {
@@ -131,6 +166,10 @@ func ruleSlot(p *Program, r *Result) {
 				releasing := map[*ssa.BasicBlock]bool{}
 				for _, b := range f.Blocks {
 					for _, in := range b.Instrs {
+						if afv, sign := atomicDelta(in); afv == fv && sign < 0 {
+							releasing[b] = true
+							continue
+						}
 						switch x := in.(type) {
 						case *ssa.UnOp:
 							if x.Op == token.ARROW && chanField(x.X) == fv {
